@@ -167,16 +167,12 @@ def hsFinish (v : Variant) (s : St) (c : Nat) (p : Pend) : St :=
   if (dropStale v s p.oid).closed c = true ∨ (dropStale v s p.oid).broken c = true then dropStale v s p.oid
   else hsIndex v (dropStale v s p.oid) p
 
-/-- `KickOldConnection(clientID, newConnID, sendKick)` -/
+/-- `KickOldConnection(clientID, newConnID, sendKick)`: unindex + delete under the lock, then the kick
+command and `stream.Close()` — the same four updates as `removeConnectionLocked`. -/
 def kickOld (v : Variant) (s : St) (x c' : Nat) : St :=
   match s.idx x with
   | none => s
-  | some o =>
-    if (s.obj o).connID = c' then s
-    else { s with idx := unindex v s o,
-                  connMap := upd s.connMap (s.obj o).connID none,
-                  closed := upd s.closed (s.obj o).connID true,
-                  evicted := upd s.evicted (s.obj o).connID true }
+  | some o => if (s.obj o).connID = c' then s else removeObj v s o
 
 /-- is `c` registered with a stale object? -/
 def staleReg (s : St) (c : Nat) : Bool :=
